@@ -124,6 +124,22 @@ Proof.
   split; [apply match_ids; assumption | apply (inv_keys st HI true)].
 Qed.
 
+(* ... and, order aside, the matching dispatcher invokes exactly the enabled matching responders whose
+   path is matched over its whole length by the message address and whose filters accept, each once *)
+Theorem dispatch_matching_exactly_once : forall h m t src port,
+  let st := final h in
+  NoDup (map i_id (snd (dispatch_match_d st m t src port)))
+  /\ forall id, In id (map i_id (snd (dispatch_match_d st m t src port))) <-> fires_m st m src port id = true.
+Proof. intros h m t src port st. apply match_exactly_once, Inv_final. Qed.
+
+(* function replacement: whatever the history (set_func, one_shot, disable/enable around them), the
+   function an invocation runs is the responder's CURRENT function (under its one-shot wrappers) *)
+Theorem invoked_function_is_current : forall h m t src port i,
+  let st := final h in
+  In i (snd (incoming st m t src port)) ->
+  exists r, nth_error (resps st) (i_id i) = Some r /\ i_tag i = user_tag (r_func r).
+Proof. intros h m t src port i st Hi. apply (invoked_current st m t src port (Inv2_final h) i Hi). Qed.
+
 (* responders 0 ("/a"), 1 ("/b"), 2 ("/a"), all matching; the message "/?" invokes 0, 2, 1 *)
 Theorem matching_global_order_refuted :
   let h := [OpCreate [47;97] true None None None 0%nat; OpCreate [47;98] true None None None 1%nat;
@@ -259,4 +275,6 @@ Print Assumptions deriv_match_correct.
 Print Assumptions match_whole_length.
 Print Assumptions parse_total.
 Print Assumptions dispatch_exact.
+Print Assumptions dispatch_matching_exactly_once.
+Print Assumptions invoked_function_is_current.
 Print Assumptions registry_runs_current_in_order.
